@@ -54,6 +54,10 @@ def worker(task):
                 and r["task"][0].split(".")[0] not in ("UpdateMethod", "TransformMethod"):
             viols.append({"key": f"C02.S|returns-RECV|{r['task'][0]}", "site": "", "value": p["value"],
                           "how": "return", "entry": r["entry"], "path": p["desc"]})
+        if p["kind"] == "ok" and p["value"] == "self" and r["task"][0].split(".")[0] in ("ResetMethod", "ResetAttrMethod"):
+            # (update / transform / with_* legitimately hand back the receiver when there is nothing to apply; a reset never does)
+            viols.append({"key": f"C02.S|returns-self|{r['task'][0]}", "site": "", "value": "self",
+                          "how": "return", "entry": r["entry"], "path": p["desc"]})
         if p["kind"] == "ok" and "RECV" in p.get("value_inner", []) and not is_imm(p["value"], p["imm"]):
             viols.append({"key": f"C02.S|shallow-result|{r['task'][0]}", "site": "", "value": p["value"],
                           "how": "shallow-copy", "entry": r["entry"], "path": p["desc"]})
@@ -224,6 +228,25 @@ def dc_rule(ctx, rep, rule="C02.DC"):
 
 
 
+def def_rule(ctx, rep, rule="C02.DEF"):
+    # ---- C02.DEF: fresh defaults (reset_* / del / constructor rely on it); shared with C08.FR
+    rep.rules[rule] = "default lookups hand out fresh copies (a reset/constructed instance shares nothing with the class-level default)"
+    from .c08 import fr_worker
+    for r in pmap(fr_worker, ["lookup_default_value", "default_value"]):
+        rep.functions |= set(r["functions"])
+        rep.evaluations += len(r["rows"])
+        bad = []
+        for row in r["rows"]:
+            if row["kind"] != "ok" or (row["sentinel"] and row["ret"] == "MISSING") or "FRESH" in row["prov"] or row["ret"] in row["imm"]:
+                continue
+            bad.append(f"returns `{row['ret']}` ({'+'.join(row['prov']) or 'atom'}) uncopied")
+        rep.oblige(rule, f"Attr.{r['which']}", not bad, "; ".join(sorted(set(bad))[:2]))
+        for b in sorted(set(bad)):
+            rep.violate(Violation(rule, f"{rule}|Attr.{r['which']}|{b[:60]}", f"Attr.{r['which']} {b}: instances obtained by reset_<attr>() / reset() / construction share the class-level object",
+                                  "", f"Attr.{r['which']}"))
+
+
+
 def _check_main(ctx, rep: Report):
     rep.rules["C02.S"] = ("per helper, _inplace=False: no write into a fresh object stores a receiver-reachable, "
                           "non-immutable value; the helper does not return a receiver-reachable part; "
@@ -276,21 +299,7 @@ def _check_main(ctx, rep: Report):
     pt_rule(ctx, rep)
 
 
-    # ---- C02.DEF: fresh defaults (reset_* / del / constructor rely on it); shared with C08.FR
-    rep.rules["C02.DEF"] = "default lookups hand out fresh copies (a reset/constructed instance shares nothing with the class-level default)"
-    from .c08 import fr_worker
-    for r in pmap(fr_worker, ["lookup_default_value", "default_value"]):
-        rep.functions |= set(r["functions"])
-        rep.evaluations += len(r["rows"])
-        bad = []
-        for row in r["rows"]:
-            if row["kind"] != "ok" or (row["sentinel"] and row["ret"] == "MISSING") or "FRESH" in row["prov"] or row["ret"] in row["imm"]:
-                continue
-            bad.append(f"returns `{row['ret']}` ({'+'.join(row['prov']) or 'atom'}) uncopied")
-        rep.oblige("C02.DEF", f"Attr.{r['which']}", not bad, "; ".join(sorted(set(bad))[:2]))
-        for b in sorted(set(bad)):
-            rep.violate(Violation("C02.DEF", f"C02.DEF|Attr.{r['which']}|{b[:60]}", f"Attr.{r['which']} {b}: instances obtained by reset_<attr>() / reset() / construction share the class-level object",
-                                  "", f"Attr.{r['which']}"))
+    def_rule(ctx, rep)
 
 
 def check(ctx, rep):
